@@ -134,6 +134,47 @@ func main() {
 		o.Set("perc.commitNoLockRejectsRollback", anchor, fmt.Sprint(rejects), found, "false")
 	}
 
+	// ---------------------------------------------------------------- percolator/reader.go (read rule used by the C28 model)
+	{
+		const anchor = "percolator/reader.go:getWriteForRead"
+		rf := o.Load("percolator/reader.go")
+		fn := rf.Func("Reader.getWriteForRead")
+		// Expected shape: `r.scanWrites(key, func(w Write, ts uint64) bool { … })`.  The callback looks
+		// past a kind K iff it contains `if <cond mentioning w.Kind == pb.Mutation_K> { return true }`
+		// before the `ts <= readTs` selection.
+		found, skipRb, skipLock := false, false, false
+		if fn != nil {
+			ast.Inspect(fn.Body, func(n ast.Node) bool {
+				ce, ok := n.(*ast.CallExpr)
+				if !ok || rf.Src(ce.Fun) != "r.scanWrites" || len(ce.Args) != 2 {
+					return true
+				}
+				fl, ok := ce.Args[1].(*ast.FuncLit)
+				if !ok {
+					return true
+				}
+				found = true
+				for _, st := range fl.Body.List {
+					is, ok := st.(*ast.IfStmt)
+					if !ok || len(is.Body.List) != 1 || rf.Src(is.Body.List[0]) != "return true" {
+						continue
+					}
+					for _, c := range rf.Comparisons(is.Cond) {
+						if c.X == "w.Kind" && c.Op == "eq" && c.Y == "pb.Mutation_Rollback" {
+							skipRb = true
+						}
+						if c.X == "w.Kind" && c.Op == "eq" && c.Y == "pb.Mutation_Lock" {
+							skipLock = true
+						}
+					}
+				}
+				return false
+			})
+		}
+		o.Set("perc.getSkipsRollback", anchor, fmt.Sprint(skipRb), found, "true")
+		o.Set("perc.getSkipsLock", anchor, fmt.Sprint(skipLock), found, "true")
+	}
+
 	// ---------------------------------------------------------------- cmd/nokv-redis (C30)
 	{
 		const anchor = "cmd/nokv-redis/main.go:main + options.go:NewDefaultOptions"
@@ -217,13 +258,14 @@ namespace NoKV.Generated.Client
 open NoKV NoKV.Client
 
 def clientCfg : ClientCfg :=
-  { commitOrder := .%s, primaryCommitErrStops := %s, perc := { commitNoLockRejectsRollback := %s } }
+  { commitOrder := .%s, primaryCommitErrStops := %s,
+    perc := { commitNoLockRejectsRollback := %s, readSkipsRollback := %s } }
 
 def redisCfg : RedisCfg :=
   { detectConflicts := %s, raftConflictFromReadTs := %s }
 
 end NoKV.Generated.Client
-`, f["client.commitOrder"], f["client.primaryCommitErrStops"], f["perc.commitNoLockRejectsRollback"],
+`, f["client.commitOrder"], f["client.primaryCommitErrStops"], f["perc.commitNoLockRejectsRollback"], f["perc.getSkipsRollback"],
 		f["redis.detectConflicts"], f["redis.raftConflictFromReadTs"])
 	o.Write(*jsonOut, *leanOut, lean)
 }
